@@ -31,6 +31,8 @@ func main() {
 	case "log":
 		raft.SetLogger(&raft.DefaultLogger{Logger: log.New(io.Discard, "", 0)})
 		runLog(res, *tier, *seed, *replay)
+	case "readonly":
+		runReadOnly(res, *tier, *seed, *replay)
 	default:
 		fmt.Fprintf(os.Stderr, "unknown suite %q\n", *suite)
 		os.Exit(2)
